@@ -518,11 +518,12 @@ def final_commit_cause(head, mine):
     return "marks_not_above_stale_out_of_range_commit"
 
 
-def refresh0_family(ctx, trace):
+def refresh0_family(ctx, trace, started=None):
     """configuration family Metadata.RefreshFrequency=0 in a process of its own (the code may crash the process from a
     goroutine without recover). The harness writes its events unbuffered; when the process died, the `panic` event is
     added here from the process output. The scenario is appended to the merged trace as one more execution."""
-    rc, out, outdir = ctx.go_test("^TestVerifGroupRefresh0$", timeout=180, name="r0", only=ONLY)
+    # (started: the go test run launched at the very beginning of the check - it also warms the build cache for the main replay)
+    rc, out, outdir = started.result() if started else ctx.go_test("^TestVerifGroupRefresh0$", timeout=180, name="r0", only=ONLY)
     if "[build failed]" in out or "[setup failed]" in out:
         ctx.need_go(rc, out, "refresh0 family")
     p = os.path.join(outdir, "trace_r0.ndjson")
@@ -559,7 +560,8 @@ def refresh0_family(ctx, trace):
 
 def run(ctx):
     thorough = ctx.tier == "thorough"
-    with concurrent.futures.ThreadPoolExecutor(max_workers=1) as ex:
+    with concurrent.futures.ThreadPoolExecutor(max_workers=2) as ex:
+        r0f = ex.submit(ctx.go_test, "^TestVerifGroupRefresh0$", ".", None, 180, "r0", False, ONLY)
         mcf = ex.submit(model_check, ctx)
         cases = os.path.join(ctx.scratch, "cases.ndjson")
         t0 = time.time()
@@ -568,7 +570,7 @@ def run(ctx):
         trace, sums, executed = replay(ctx, cases, ncases, 10 if thorough else 8, 2400 if thorough else 400, "grp")
         t2 = time.time()
         nevents = sum(s.get("events", 0) for s in sums)
-        r0 = refresh0_family(ctx, trace)
+        r0 = refresh0_family(ctx, trace, r0f)
         ncases += 1
         executed["refresh0"] = 1
         rs = ctx.tlc_trace("GroupTrace", "GroupTrace.cfg", trace, shards=10 if thorough else 4, timeout=1500)
